@@ -68,6 +68,9 @@ class SigmaRuleBase:
         init=False, default=None, repr=False, compare=False
     )
     _output: bool = field(init=False, default=True, repr=False, compare=False)
+    _output_disabled_by_reference: bool = field(
+        init=False, default=False, repr=False, compare=False
+    )
 
     def __post_init__(self: Self) -> None:
         for field in ("references", "tags", "fields", "falsepositives"):
@@ -502,6 +505,23 @@ class SigmaRuleBase:
     def disable_output(self: Self) -> None:
         """Disable output of rule."""
         self._output = False
+        self._output_disabled_by_reference = False
+
+    def disable_output_by_reference(self: Self) -> None:
+        """Disable output of rule because it is referenced by a rule that doesn't generate it."""
+        if self._output:
+            self._output = False
+            self._output_disabled_by_reference = True
+
+    def reset_references(self: Self) -> None:
+        """
+        Forget the references from other rules and their effect on the output. They are determined
+        again for the collection the rule belongs to when its references are resolved.
+        """
+        self._backreferences = []
+        if self._output_disabled_by_reference:
+            self._output = True
+            self._output_disabled_by_reference = False
 
     def __lt__(self: Self, other: SigmaRuleBase) -> bool:
         """Sort rules by backreference. A rule referenced by another rule is smaller."""
